@@ -90,6 +90,7 @@ mutual
         obtain ⟨rows, href, hl⟩ := ih
         simp only [href, Option.bind_some]
         exact applyRFs_lazy O fix fs (soundR O fix from_ to ds _ hw hr) hl
+    | .xfiltered _ _, _, hn => by simp [NoRedR] at hn
     | .join jt srcs, hw, hn => by
       have ih := execRL_lazy fix from_ to srcs hw hn
       simp only [execR, semR]
@@ -188,6 +189,7 @@ mutual
           obtain ⟨h1, h2⟩ := hwr
           simp only at h1 h2; subst h1; subst h2
           exact hlazy
+    | .xfiltered _ _, _, hn => by simp [NoRedD] at hn
     | .reduction _ _ _ _ _, _, hn => by simp [NoRedD] at hn
     | .fromReport r urn, hw, hn => by
       have ih := execR_lazy fix from_ to r hw hn
@@ -229,11 +231,13 @@ mutual
   def JoinFreeR : RDs D → Prop
     | .static _ _ => True
     | .filtered ds _ => JoinFreeR ds
+    | .xfiltered _ _ => False
     | .join _ _ => False
     | .fromDs d => JoinFreeD d
   def JoinFreeD : DDs D → Prop
     | .static _ _ => True
     | .filtered d _ => JoinFreeD d
+    | .xfiltered _ _ => False
     | .reduction _ _ _ _ _ => False
     | .fromReport r _ => JoinFreeR r
 end
@@ -253,6 +257,7 @@ mutual
         simp only [ResRef] at ih
         simp only [ih, Option.bind_some]
         exact applyRFs_refN O fix fs (soundR O fix from_ to ds _ hw hr)
+    | .xfiltered _ _, _, ht => by simp [JoinFreeR] at ht
     | .join _ _, _, ht => by simp [JoinFreeR] at ht
     | .fromDs d, hw, ht => by
       have ih := execD_refN fix from_ to d hw ht
@@ -296,6 +301,7 @@ mutual
           simp only at h1 h2; subst h1; subst h2
           simp only [ResRef] at href
           simp [ResRefD, href]
+    | .xfiltered _ _, _, ht => by simp [JoinFreeD] at ht
     | .reduction _ _ _ _ _, _, ht => by simp [JoinFreeD] at ht
     | .fromReport r urn, hw, ht => by
       have ih := execR_refN fix from_ to r hw ht
